@@ -24,6 +24,8 @@ var (
 
 	// A seed for the pseudo-random number generator used by getRandomData
 	prngSeed = 0xdeadc0de
+
+	errRegionSizeOverflow = &kernel.Error{Module: "goruntime", Message: "requested region size overflows when rounded up to a multiple of the page size"}
 )
 
 // initGoPackages is an alias to main.init which recursively calls the init()
@@ -53,6 +55,11 @@ func runtimeInit() {
 //go:nosplit
 func sysReserve(_ unsafe.Pointer, size uintptr, reserved *bool) unsafe.Pointer {
 	regionSize := (size + mm.PageSize - 1) & ^(mm.PageSize - 1)
+	if regionSize < size {
+		// rounding up wrapped around: no region can hold the request
+		panic(errRegionSizeOverflow)
+	}
+
 	regionStartAddr, err := earlyReserveRegionFn(regionSize)
 	if err != nil {
 		panic(err)
@@ -78,6 +85,10 @@ func sysMap(virtAddr unsafe.Pointer, size uintptr, reserved bool, sysStat *uint6
 	// We trust the allocator to call sysMap with an address inside a reserved region.
 	regionStartAddr := (uintptr(virtAddr) + uintptr(mm.PageSize-1)) & ^uintptr(mm.PageSize-1)
 	regionSize := (size + mm.PageSize - 1) & ^(mm.PageSize - 1)
+	if regionSize < size {
+		// rounding up wrapped around: the pages needed cannot be mapped
+		return unsafe.Pointer(uintptr(0))
+	}
 	pageCount := regionSize >> mm.PageShift
 
 	mapFlags := vmm.FlagPresent | vmm.FlagNoExecute | vmm.FlagCopyOnWrite
@@ -102,6 +113,11 @@ func sysMap(virtAddr unsafe.Pointer, size uintptr, reserved bool, sysStat *uint6
 //go:nosplit
 func sysAlloc(size uintptr, sysStat *uint64) unsafe.Pointer {
 	regionSize := (size + mm.PageSize - 1) & ^(mm.PageSize - 1)
+	if regionSize < size {
+		// rounding up wrapped around: no region can hold the request
+		return unsafe.Pointer(uintptr(0))
+	}
+
 	regionStartAddr, err := earlyReserveRegionFn(regionSize)
 	if err != nil {
 		return unsafe.Pointer(uintptr(0))
